@@ -166,6 +166,9 @@ impl Module for M {
                 }
                 let bb = c.bounding_box();
                 let pts: Vec<Point> = c.points().collect();
+                if pts.len() <= 400 {
+                    iter_protocol_check(ctx, "iterator-protocol:circle-points", c.points(), 400);
+                }
                 let m = 3i32;
                 let (x0, y0) = (tl.x - m, tl.y - m);
                 let (x1, y1) = (tl.x + d as i32 + m, tl.y + d as i32 + m);
